@@ -64,10 +64,23 @@ for rel, tree in sorted(trees.items()):
             for s in node.body:
                 if isinstance(s, ast.FunctionDef):
                     _defaults(rel, f"{node.name}.{s.name}", s)
+def _canon_default(v):
+    """The default *value* of a dataclass field: `x` for `= x` / `field(default=x)`, `factory:f` for default_factory, None if required."""
+    import ast as _ast
+    if isinstance(v, _ast.Call) and (getattr(v.func, "attr", None) == "field" or getattr(v.func, "id", None) == "field"):
+        for k in v.keywords:
+            if k.arg == "default":
+                return _ast.unparse(k.value)
+            if k.arg == "default_factory":
+                return "factory:" + _ast.unparse(k.value)
+        return None
+    return _ast.unparse(v)
+
+
 field_defaults = {}
 for c in _m.all_classes():
     if c.is_dataclass and not c.module.rel.startswith("tests"):
-        d = {f.name: ast.unparse(f.node.value) for f in c.own_fields if f.node.value is not None}
+        d = {f.name: _canon_default(f.node.value) for f in c.own_fields if f.node.value is not None and _canon_default(f.node.value) is not None}
         if d:
             field_defaults[c.key] = d
 out = {"field_defaults": field_defaults, "defaults": defaults, "note": old.get("note", ""), "functions": sorted(set(funcs)), "call_styles": call_styles(trees), "locals": locs, "init_order": init_order}
